@@ -113,6 +113,46 @@ theorem chunksWith_tiles (B C : Nat) (hB : 0 < B) (hC : 0 < C) (batch : Range) (
   have hper : 0 < (B + C - 1) / C := Nat.div_pos (by omega) hC
   exact (chunksLoop_tiles batch.stop _ hper _ batch.start hb (Nat.le_refl _)).1
 
+theorem chunksLoop_length (stop per : Nat) :
+    ∀ fuel start, start ≤ stop → (chunksLoop stop per fuel start).length * per < (stop - start) + per ∨ per = 0 := by
+  intro fuel
+  induction fuel with
+  | zero => intro start _; simp [chunksLoop]; omega
+  | succ fuel ih =>
+    intro start hs
+    by_cases hper : per = 0
+    · exact Or.inr hper
+    left
+    unfold chunksLoop
+    by_cases hlt : start < stop
+    · rw [if_pos hlt, List.length_cons, Nat.add_mul, Nat.one_mul]
+      by_cases hnext : start + per < stop
+      · rcases ih (start + per) (by omega) with h | h
+        · omega
+        · exact absurd h hper
+      · rw [chunksLoop_nil stop per fuel (start + per) (by omega)]
+        simp; omega
+    · rw [if_neg hlt]; simp; omega
+
+/-- A batch of at most `B` lines is split into at most `C` chunks (the meaning of `NumChunksInBatch`). -/
+theorem chunksWith_length_le (B C : Nat) (hB : 0 < B) (hC : 0 < C) (batch : Range)
+    (hb : batch.start ≤ batch.stop) (hlen : batch.stop - batch.start ≤ B) :
+    (chunksWith B C batch).length ≤ C := by
+  unfold chunksWith
+  have hper : 0 < (B + C - 1) / C := Nat.div_pos (by omega) hC
+  have hcover : B ≤ C * ((B + C - 1) / C) := by
+    have h1 := Nat.div_add_mod (B + C - 1) C
+    have h2 := Nat.mod_lt (B + C - 1) hC
+    generalize C * ((B + C - 1) / C) = X at *
+    omega
+  rcases chunksLoop_length batch.stop ((B + C - 1) / C) (batch.stop - batch.start) batch.start hb with h | h
+  · generalize (B + C - 1) / C = per at *
+    generalize (chunksLoop batch.stop per (batch.stop - batch.start) batch.start).length = L at *
+    have : L * per < (C + 1) * per := by rw [Nat.add_mul, Nat.one_mul]; omega
+    have := Nat.lt_of_mul_lt_mul_right this
+    omega
+  · omega
+
 /-- All chunks of all batches tile `[0,n)`. -/
 theorem allChunks_tiles (B C n : Nat) (hB : 0 < B) (hC : 0 < C) :
     Tiles ((batchesWith B n).flatMap (chunksWith B C)) 0 n := by
